@@ -502,9 +502,15 @@ def translate() -> tuple[str, dict]:
     from translate import c11_phys, c11_spritedict
     sd_text, sd_side = c11_spritedict.generate(tree)
     ph_text, ph_side = c11_phys.generate(c11_norm.functions(tree, {'_lmp_write_bmodels', '_lmp_read_bmodels'}))
-    L = ['(* GENERATED by translate/c11_glue.py + c11_records.py + c11_dedup.py + c11_helpers.py + c11_overlayrec.py + c11_worklist.py + c11_phys.py + c11_spritedict.py from src/srctools/bsp.py, binformat.py, vmf.py. Do not edit. *)',
+    # which static-prop format reader and writer settle on: tabulated by executing the source as written
+    from translate import c11_propver
+    pv_text, pv_side = c11_propver.generate(ast.parse(src_text('bsp.py')))
+    # in which order save() takes a view out of the cache, runs its writer and stores the bytes
+    from translate import c11_savecommit
+    sc_text, sc_side = c11_savecommit.generate(ast.parse(src_text('bsp.py')))
+    L = ['(* GENERATED by translate/c11_glue.py + c11_records.py + c11_dedup.py + c11_helpers.py + c11_overlayrec.py + c11_worklist.py + c11_phys.py + c11_spritedict.py + c11_propver.py + c11_savecommit.py from src/srctools/bsp.py, binformat.py, vmf.py. Do not edit. *)',
          'From Coq Require Import List String NArith ZArith.',
-         'From SV Require Import Fmt.BspVisRow Fmt.BspTexStrings Fmt.BspRecords Fmt.BspEntLump Fmt.BspDedup Fmt.BspFlagSplit Fmt.BspOverlayRec Fmt.BspWorklist Fmt.BspPhys Bin.BspDeferred Fmt.BspSpriteDict.',
+         'From SV Require Import Fmt.BspVisRow Fmt.BspTexStrings Fmt.BspRecords Fmt.BspEntLump Fmt.BspDedup Fmt.BspFlagSplit Fmt.BspOverlayRec Fmt.BspWorklist Fmt.BspPhys Bin.BspDeferred Fmt.BspSpriteDict Fmt.BspPropVersion Fmt.BspSaveCommit.',
          'Import ListNotations.', 'Open Scope string_scope.',
          f'(* runlength_decode: {r_src} *)',
          f'Definition vis_row_reader : rexp := {r_expr}.',
@@ -520,7 +526,7 @@ def translate() -> tuple[str, dict]:
          f'Definition tex_codec_same : bool := {"true" if tx["codec_same"] else "false"}.',
          f'Definition ent_cfg : entcfg := ({et["key_mode"]}, {et["value_mode"]}, {et["out_name_mode"]}, [{"; ".join(et["out_field_modes"])}]).',
          f'Definition ent_output_sep : N := {et["output_sep"]}%N.',
-         rec_text, dd_text, hp_text, ov_text, wl_text, ph_text, sd_text, '']
+         rec_text, dd_text, hp_text, ov_text, wl_text, ph_text, sd_text, pv_text, sc_text, '']
     side = {'vis_row_reader': r_src, 'vis_row_writer': w_src, 'vis_reader_passes_cluster_count': r_passes,
             'vis_writer_checks_row_length': w_guard, 'textures': tx}
     side['ent_text'] = et
@@ -533,6 +539,8 @@ def translate() -> tuple[str, dict]:
     side.update(wl_side)
     side.update(ph_side)
     side.update(sd_side)
+    side.update(pv_side)
+    side.update(sc_side)
     return '\n'.join(L), side
 
 
